@@ -329,6 +329,10 @@ fn search_quant(_budget: usize, _seed: u64) -> Option<Fail> {
     lists.push(vec![5, 3, 1]);
     lists.push(vec![1, 5, 1]);
     lists.push(vec![6, 0, 3]);
+    // a repeated variable FOLLOWED by further variables of the support (and the same at the end)
+    for l in [vec![1usize, 3, 1, 5], vec![5, 5, 1], vec![3, 1, 3], vec![1, 1, 3, 5], vec![5, 1, 3, 5, 1], vec![3, 5, 5, 1], vec![0, 1, 0, 3]] {
+        lists.push(l);
+    }
     for ids in [vec![1usize, 3, 5]] {
         for foreign in ["0", "1"] {
             for q in ["exists", "all"] {
